@@ -42,7 +42,11 @@ class Ctx:
     def __init__(self, prop, tier, seed):
         self.prop, self.tier, self.seed = prop, tier, seed
         self.quick = tier == "quick"
-        self.work = os.path.join(VERIF, ".work", prop)
+        # seed mode: the check runs against a scratch worktree (VERIF_REPO) instead of /repo;
+        # it then uses its own work directory and does not touch evidence/ or replays/
+        self.seedmode = os.path.realpath(REPO) != "/repo"
+        suffix = ("-" + hashlib.sha1(REPO.encode()).hexdigest()[:8]) if self.seedmode else ""
+        self.work = os.path.join(VERIF, ".work", prop + suffix)
         shutil.rmtree(self.work, ignore_errors=True)
         os.makedirs(self.work)
         self.specdir = os.path.join(self.work, "spec")
@@ -62,6 +66,13 @@ class Ctx:
         """Build the harness against the current /repo tree with the verif tag."""
         hdir = os.path.join(VERIF, "harness")
         out = os.path.join(self.work, "harness-race" if race else "harness")
+        if self.seedmode:
+            src = os.path.join(self.work, "harness-src")
+            if not os.path.exists(src):
+                shutil.copytree(hdir, src)
+                gm = open(os.path.join(src, "go.mod")).read().replace("=> /repo", "=> " + os.path.realpath(REPO))
+                open(os.path.join(src, "go.mod"), "w").write(gm)
+            hdir = src
         gosum = os.path.join(REPO, "go.sum")
         if os.path.exists(gosum):
             shutil.copy(gosum, os.path.join(hdir, "go.sum"))
@@ -226,7 +237,9 @@ class Ctx:
             lines = f.readlines()
         if not lines:
             raise MachineryError("empty trace " + trace)
-        shards = max(1, min(shards or NCPU, len(lines)))
+        total = sum(len(x) for x in lines)
+        # a JVM start costs seconds: do not split small traces over many processes
+        shards = max(1, min(shards or NCPU, len(lines), 1 + total // 150000))
         # balance shards by bytes
         order = sorted(range(len(lines)), key=lambda i: -len(lines[i]))
         buckets = [[] for _ in range(shards)]
@@ -298,13 +311,14 @@ class Ctx:
         confirmed by re-running each offending case alone in a fresh process."""
         mm = os.path.join(self.work, family + ".mm")
         summ = self.harness("replay-" + family, cases=cases_path, out=mm, timeout=timeout, **extra)
-        items = self.load_ndjson(mm, limit=2000)
+        items = self.load_ndjson(mm, limit=300)
         self.cov["evaluations"] += int(summ.get("evaluations", 0))
         self.cov["traces_validated_against_impl"] += int(summ.get("cases", 0))
         for it in items:
             it.setdefault("family", family)
             it.setdefault("dir", "replay")
-        self.add_mismatches(items, confirm=lambda m: self.confirm_replay(m, **extra))
+        cx = {k: v for k, v in extra.items() if k not in ("faultout",)}
+        self.add_mismatches(items, confirm=lambda m: self.confirm_replay(m, **cx))
         return summ
 
     def confirm_replay(self, m, **extra):
@@ -375,7 +389,7 @@ class Ctx:
             if k["id"] not in seen:
                 seen.add(k["id"])
                 print("KNOWN-FINDING: property=%s %s" % (self.prop, k["what"]))
-        rdir = os.path.join(VERIF, "replays")
+        rdir = os.path.join(VERIF, "replays") if not self.seedmode else os.path.join(self.work + "-replays")
         os.makedirs(rdir, exist_ok=True)
         shown = 0
         for m in self.violations:
@@ -397,8 +411,9 @@ class Ctx:
         ev = {"property_id": self.prop, "tier": self.tier, "seed": self.seed, "level": level,
               "coverage": cov, "assumptions": self.assumptions, "wall_s": round(wall, 2),
               "violations": len(self.violations)}
-        os.makedirs(os.path.join(VERIF, "evidence"), exist_ok=True)
-        with open(os.path.join(VERIF, "evidence", self.prop + ".json"), "w") as f:
+        evdir = os.path.join(VERIF, "evidence") if not self.seedmode else self.work + "-replays"
+        os.makedirs(evdir, exist_ok=True)
+        with open(os.path.join(evdir, self.prop + ".json"), "w") as f:
             json.dump(ev, f, indent=1, sort_keys=True)
             f.write("\n")
         print("check %s tier=%s seed=%d: states=%d transitions=%d traces=%d evaluations=%d violations=%d known=%d wall=%.1fs" % (
@@ -459,6 +474,8 @@ def match_known(kf, prop, m):
             for part in key.split("."):
                 if isinstance(cur, dict) and part in cur:
                     cur = cur[part]
+                elif isinstance(cur, list) and part.isdigit() and int(part) < len(cur):
+                    cur = cur[int(part)]
                 else:
                     cur = None
                     break
